@@ -979,6 +979,11 @@ class Ev:
                 return matmul(ca[1], args[0])
             if meth == "transpose" and not args and not kwargs:
                 return transpose(ca[1])
+            if meth in ("min", "max", "sum", "mean", "prod", "any", "all", "argmin", "argmax", "std", "var", "cumsum", "cumprod") \
+                    and ca[1].key() not in ("self", "cls") and not (ca[1].as_atom() or ("",))[0] == "str":
+                # X.min(axis=0) is numpy.min(X, axis=0): one spelling for array reductions
+                full = P.name("numpy." + meth)
+                return P.atom(("call", full, (ca[1],) + tuple(args), kwargs)) if kwargs else P.atom(("call", full, (ca[1],) + tuple(args)))
         if self.call_hook is not None:
             r = self.call_hook(self, callee, args, kwargs, node)
             if r is not None:
